@@ -231,6 +231,15 @@ func (p *primitivizer) site(key annotation.Key, isDeep bool) primitiveSite {
 // objectPath returns the objectpath.Path for the given object, using fast paths where possible
 // to avoid the expensive traversal in objectpath.Encoder.For().
 func (p *primitivizer) objectPath(obj types.Object) objectpath.Path {
+	// A member (field or method) of an instantiated generic type, or an instantiated generic
+	// function, is a different object than the one declared in the source, and the object path
+	// encoder only knows the latter (the "origin"). The sites are identified by the declarations.
+	switch o := obj.(type) {
+	case *types.Var:
+		obj = o.Origin()
+	case *types.Func:
+		obj = o.Origin()
+	}
 	// Check cache first
 	if path, ok := p.objPathCache[obj]; ok {
 		return path
